@@ -17,7 +17,14 @@ contract("abs:Scenario.should_run_with_name_select", trusted=True, params={"self
          pos_params=["self", "config"], pure=True, result="bool",
          ensures={"value": "result == name_selected(config, self)"},
          doc="--name selection (regex search on the scenario name: bounded under C10)")
-contract(M + "Scenario.should_run", inline=True)
+contract(M + "Scenario.should_run", props=P + ["C10"], params={"self": "ref:Scenario", "config": "opt:ref:Configuration"},
+         self_classes=["Scenario"], result="bool", pure=True,
+         callsites={"self.should_run_with_tags": "abs:TagAndStatusStatement.should_run_with_tags",
+                    "self.should_run_with_name_select": "abs:Scenario.should_run_with_name_select"},
+         ensures={"runs-iff-not-marked-skipped-and-selected-by-tags-and-by-name":
+                  "result == (not self.should_skip and (is_none(config) or "
+                  "(tag_check(as_ref(config, 'Configuration').tag_expression, self) and name_selected(config, self))))"},
+         doc="the run decision of a scenario: the skip mark, the tag expression and the --name selection, all three (C09, C10)")
 contract("abs:Scenario.captured.reset", trusted=True, pos_params=[], pure=True, doc="clears the captured output holder")
 contract("new:Context", trusted=True, pos_params=["runner"], fresh_result="Context", doc="Context(runner)")
 contract(R + "ModelRunner.setup_capture", inline=True)
@@ -45,7 +52,8 @@ STEPMOD = ["G_bad", "G_nhooks", "G_hook_name", "G_hook_arg", "G_hook_out", "G_ho
 PASSED = "(Status.passed, Status.pending_warn)"
 UNDEF0 = "old(len(runner._undefined_steps))"
 
-contract(M + "Scenario.run", props=P,
+FINAL = "own-hook-failure-is-the-final-status,raising-cleanup-fails-the-scenario,a-scenario-whose-own-hook-failed-reports-failure-to-its-container"
+contract(M + "Scenario.run", props=P + ["C17:" + FINAL, "C16:" + FINAL],
          params={"self": "ref:Scenario", "runner": "ref:ModelRunner"}, self_classes=["Scenario"],
          globals=SYS, result="bool",
          requires={
@@ -141,6 +149,9 @@ contract(M + "Scenario.run", props=P,
              "scope-balanced": "G_ctx_depth == old(G_ctx_depth) and G_ctx_scenario == old(G_ctx_scenario) and G_ctx_rule == old(G_ctx_rule)",
              "raising-cleanup-fails-the-scenario":
                  "implies(pop_raises(old(G_npops)), result == True and self._cached_status == Status.error)",
+             # ---- C03 / C17: an own hook failure is the scenario's final status, whatever was read before -----
+             "own-hook-failure-is-the-final-status":
+                 "implies(self.hook_failed and not pop_raises(old(G_npops)), self._cached_status == Status.hook_error)",
              # ---- C01 -------------------------------------------------------------------------
              "no-false-red": "implies(result, G_bad > old(G_bad))",
              "no-false-green": "implies(G_bad > old(G_bad), result or len(runner._undefined_steps) > %s)" % UNDEF0,
